@@ -133,12 +133,12 @@ def class_of_const(c):
     return POS if c > 0 else NEG
 
 
-def classes_at(body, target_root, v=None):
+def classes_at(body, target_root, v=None, init=None):
     """dict block -> frozenset of classes the value may have on entry to the block.  For a root that is a re-assigned local the
     assignments inside blocks are followed (constant => its class, anything else => unknown)."""
     v = v or Vals(body)
     n = len(body.blocks)
-    IN = {0: ALL}
+    IN = {0: frozenset(init) if init is not None else ALL}
     succ = body.succs()
     work = [0]
     guards = {}
